@@ -79,16 +79,18 @@ def addTop (s : HG) (idx : PyId) (ms : List PyId) (a : Attrs) (h : Hints) : HG :
 /-! ### add_simplex -/
 
 def addSimplex (s : HG) (ms : List PyId) (idx : Option PyId) (a : Attrs) (h : Hints) : HG × Outcome :=
-  if ms.isEmpty then (s, .ok) else
-  if PyId.none ∈ ms then (s, .err .lib) else
   if hasSimplex s ms then (s, .ok) else
   match idx with
   | some .none | none =>
+    if ms.isEmpty then (s, .ok) else
+    if PyId.none ∈ ms then (s, .err .lib) else
     let i := PyId.int s.uid
     let s := { s with uid := s.uid + 1 }
     (addFaces (addTop s i ms a h) (subfacesRaw (dedup ms)) h, .ok)
   | some i =>
     if i ∈ s.edges then (s, .warned) else
+    if ms.isEmpty then (s, .ok) else
+    if PyId.none ∈ ms then (s, .err .lib) else
     (addFaces (addTop s i ms a h) (subfacesRaw (dedup ms)) h, .ok)
 
 /-! ### add_simplices_from -/
@@ -197,11 +199,10 @@ def close (s : HG) (orders : List (List PyId)) (h : Hints) : HG × Outcome :=
 /-! ### cleanup(in_place=True) -/
 
 def lccInPlace (s : HG) : HG × Outcome :=
-  match largestComponent s with
-  | none => (s, .err .valueError)
-  | some c =>
-    let r := guardF s (removeNodesFrom s (s.nodes.filter (· ∉ c)))
-    (r.1, if r.2.isErr then r.2 else .ok)
+  -- `max(connected_components(H), key=len, default=set())`: the null complex has no component
+  let c := (largestComponent s).getD []
+  let r := guardF s (removeNodesFrom s (s.nodes.filter (· ∉ c)))
+  (r.1, if r.2.isErr then r.2 else .ok)
 
 /-- `convert_labels_to_integers(S, in_place=True)` -/
 def relabel (s : HG) (labelAttr : String) (h : Hints) : HG × Outcome :=
